@@ -269,6 +269,14 @@ def case_C04(seed):
     else:
         case = U.gen_case(rnd, laps=rnd.random() < 0.15)
         linked = U.gen_linked(case)
+    if seed % 6 == 1:
+        # labels that look like something else: strings of exactly two characters (as long as an edge has nodes), a tuple of
+        # two (grid cells as labels) is left to C16's label genericity
+        ks_ = list(case['graph'])
+        mp_ = {k: f"{'KQXZ'[i % 4]}{i}" if i < 10 else f"{'abcdefghij'[i % 10]}{'KQXZ'[i // 10 % 4]}" for i, k in enumerate(ks_)}
+        case['graph'] = {mp_[a]: (p, [mp_[b] for b in nb if b in mp_]) for a, (p, nb) in case['graph'].items()}
+        if linked:
+            linked = {(mp_[a], mp_[b]): {(mp_[c], mp_[d]) for (c, d) in v} for (a, b), v in linked.items()}
     U.quiet()
     mp = U.make_map(case['graph'], linked=linked)
     mt = U.make_matcher(mp, case['cfg'], case.get('warmup'))
@@ -615,14 +623,41 @@ def case_C10(seed):
     tie = False
     if mt.lattice:
         for col in mt.lattice.values():
-            vals = sorted(m.logprob for m in col.values(0) if not m.stop)
-            if any(x == y for x, y in zip(vals, vals[1:])):
-                tie = True
+            for lay in col.o:
+                vals = sorted(m.logprob for m in lay.values() if not m.stop)
+                if any(x == y for x, y in zip(vals, vals[1:])):
+                    tie = True
+
+    def best_last(mt_):
+        # the k best live matchings of the last columns (what continue_with_distance() jumps on from): a selection by
+        # probability, so without exact ties it cannot depend on the order in which the map lists nodes and neighbours
+        import io, contextlib
+        if not mt_.lattice:
+            return None
+        with contextlib.redirect_stdout(io.StringIO()):
+            try:
+                return [sorted((o_, str(m.key), round(m.logprob, 12)) for o_, l_ in mt_.best_last_matches(k=k_, nb_obs=3).items() for m in l_) for k_ in (1, 2)]
+            except Exception as e:
+                return ('raised', type(e).__name__)
+    a_bl = best_last(mt)
+    # exact ties among the entries that selection looks at (all layers of the last matched columns)
+    tie_bl = False
+    if mt.lattice:
+        last_ = (len(mt.lattice) - 1) if mt.early_stop_idx is None else (mt.early_stop_idx - 1)
+        for ci in range(max(0, last_ - 3), last_ + 1):
+            if ci in mt.lattice:
+                vals = sorted(m.logprob for lay in mt.lattice[ci].o for m in lay.values() if not m.stop)
+                if any(x == y for x, y in zip(vals, vals[1:])):
+                    tie_bl = True
     for rep in range(2):
         c2 = copy.deepcopy(case)
         c2['graph'] = permute_graph(rnd, case['graph'])
         mp2, mt2, res2 = run_match(c2)
         b = U.canon(mt2, res2)
+        if not tie_bl and a_bl != best_last(mt2) and not viol:
+            viol.append(('C10:best-last-matchings-depend-on-map-order', f"best_last_matches(k=1,2): {a_bl} vs {best_last(mt2)} after permuting node and neighbour order (no exact tie among the entries of the last columns)",
+                         {'case': U.case_repr(case), 'permuted_graph': U.case_repr(c2)['graph']}))
+            break
         if a['idx'] != b['idx'] or not close(a['best'], b['best'], 1e-12, 1e-12):
             # exact ties may legitimately be broken by map order, but only when width pruning / ne pruning can see them
             viol.append(('C10:result-depends-on-map-order', f"idx/best {a['idx']}/{a['best']} vs {b['idx']}/{b['best']} after permuting node and neighbour order",
@@ -962,7 +997,7 @@ def case_C19(seed):
                     import io, contextlib
                     with contextlib.redirect_stdout(io.StringIO()):
                         try:
-                            c_['best_last'] = [sorted((str(m.key), m.logprob) for m in mt.best_last_matches(k=k_, nb_obs=2)) for k_ in (1, 2)]
+                            c_['best_last'] = [sorted((o_, str(m.key), m.logprob) for o_, l_ in mt.best_last_matches(k=k_, nb_obs=2).items() for m in l_) for k_ in (1, 2)]
                         except Exception as e:
                             c_['best_last'] = ('raised', type(e).__name__)
                 rr.append(c_)
